@@ -105,7 +105,7 @@ struct Integrity<'a> {
     thorough: bool,
 }
 
-pub const C03_FAMS: [Fam; 7] = [Fam::BitFlip, Fam::FieldValue, Fam::Resize, Fam::ElemValue, Fam::Swap, Fam::Gkr, Fam::Trailing];
+pub const C03_FAMS: [Fam; 8] = [Fam::BitFlip, Fam::FieldValue, Fam::Resize, Fam::ElemValue, Fam::Swap, Fam::Gkr, Fam::Trailing, Fam::Consistent];
 
 impl<'a> PairFn for Integrity<'a> {
     type Out = ();
